@@ -720,4 +720,360 @@ theorem lsd_ofLsd {b : Nat} (hb : 2 ≤ b) : ∀ (ls : List Nat) (h : ls ≠ [])
         rw [Nat.add_mul_div_left _ _ (by omega), Nat.div_eq_of_lt hd, Nat.zero_add]
       rw [h1, h2, hrec]
 
+/-! ### debug_printdec_uint64 -/
+
+/-- `lsd` without the digit of zero -/
+def lsdz (b n : Nat) : List Nat := if n = 0 then [] else lsd b n
+
+theorem lsd_step {b : Nat} (hb : 2 ≤ b) (n : Nat) : lsd b n = n % b :: lsdz b (n / b) := by
+  by_cases h : n < b
+  · rw [lsd_small h, Nat.mod_eq_of_lt h, Nat.div_eq_of_lt h]; simp [lsdz]
+  · have hq : n / b ≠ 0 := by have : 0 < n / b := Nat.div_pos (by omega) (by omega); omega
+    rw [lsd_big hb (by omega)]; simp [lsdz, hq]
+
+theorem lsd_length_le_pow {b : Nat} (hb : 2 ≤ b) : ∀ (k n : Nat), n < b ^ k → (lsd b n).length ≤ max k 1 := by
+  intro k
+  induction k with
+  | zero => intro n hn; have : n = 0 := by simpa using hn
+            subst this; rw [lsd_small (by omega)]; simp
+  | succ k ih =>
+    intro n hn
+    by_cases h : n < b
+    · rw [lsd_small h]; simp
+    · rw [lsd_big hb (by omega)]
+      have h2 : n / b < b ^ k := by
+        apply Nat.div_lt_of_lt_mul; rw [Nat.pow_succ, Nat.mul_comm] at hn; exact hn
+      have := ih (n / b) h2
+      have hq : 0 < n / b := Nat.div_pos (by omega) (by omega)
+      have hk : 0 < k := by
+        cases k with
+        | zero => simp at h2; omega
+        | succ _ => omega
+      simp only [List.length_cons]
+      omega
+
+def decChar (d : Nat) : Byte := byteOfNat (d + 48)
+
+theorem decLoop_spec : ∀ (fuel x : Nat) (pre0 junk suf : List Byte),
+    (lsdz 10 x).length < fuel → junk.length = (lsdz 10 x).length →
+    decLoop fuel x (pre0 ++ junk ++ suf) (pre0.length + junk.length)
+      = some (pre0 ++ (lsdz 10 x).reverse.map decChar ++ suf, pre0.length) := by
+  intro fuel
+  induction fuel with
+  | zero => intro _ _ _ _ h; omega
+  | succ f ih =>
+    intro x pre0 junk suf hf hj
+    by_cases hx : x = 0
+    · subst hx
+      simp only [lsdz, if_true, List.length_nil] at hj ⊢
+      have : junk = [] := List.eq_nil_of_length_eq_zero hj
+      subst this
+      simp [decLoop]
+    · have hl : lsdz 10 x = x % 10 :: lsdz 10 (x / 10) := by
+        simp only [lsdz, hx, if_false]; rw [lsd_step (by omega)]; simp [lsdz]
+      rw [hl] at hj hf ⊢
+      rcases List.eq_nil_or_concat junk with h | ⟨junk0, j, h⟩
+      · subst h; simp at hj
+      · subst h
+        rw [List.concat_eq_append] at hj ⊢
+        have hj0 : junk0.length = (lsdz 10 (x / 10)).length := by simpa using hj
+        have hp : pre0.length + (junk0 ++ [j]).length ≠ 0 := by simp
+        have hp1 : pre0.length + (junk0 ++ [j]).length - 1 = (pre0 ++ junk0).length := by simp <;> omega
+        rw [decLoop, if_pos hx, if_neg hp, hp1]
+        have hm : pre0 ++ (junk0 ++ [j]) ++ suf = (pre0 ++ junk0) ++ j :: suf := by simp
+        rw [hm, wr_mid _ _ _ _ _ rfl]
+        simp only [Option.bind_some]
+        have := ih (x / 10) pre0 junk0 (byteOfNat (x % 10 + 48) :: suf) (by simp at hf; omega) hj0
+        rw [List.length_append, this]
+        simp [decChar]
+
+theorem takeWhile_nul (l r : List Byte) (h : ∀ x ∈ l, x ≠ 0#8) :
+    (l ++ 0#8 :: r).takeWhile (· ≠ 0#8) = l := by
+  induction l with
+  | nil => simp
+  | cons a t ih =>
+    have ha : a ≠ 0#8 := h a (by simp)
+    have ih' := ih (fun x hx => h x (by simp [hx]))
+    simp [ha]
+    simpa using ih'
+
+theorem decChar_eq : ∀ d, d < 10 → decChar d = digitChar false d ∧ decChar d ≠ 0#8 := by decide
+
+theorem printdecU64_spec (x : BitVec 64) : printdecU64 x = some (canonNat false 10 x.toNat) := by
+  have hlen : (lsdz 10 x.toNat).length ≤ 20 := by
+    unfold lsdz; split
+    · simp
+    · have := lsd_length_le_pow (b := 10) (by omega) 20 x.toNat (by have := x.isLt; omega)
+      omega
+  have hc : wr (List.replicate 24 0xA5#8) 23 0#8 = some (List.replicate 23 0xA5#8 ++ [0#8]) := by decide
+  have hsplit : List.replicate 23 (0xA5#8 : Byte)
+      = List.replicate (23 - (lsdz 10 x.toNat).length) 0xA5#8 ++ List.replicate (lsdz 10 x.toNat).length 0xA5#8 := by
+    rw [List.replicate_append_replicate]; congr 1; omega
+  unfold printdecU64
+  rw [hc]
+  simp only [Option.bind_some]
+  have := decLoop_spec 24 x.toNat (List.replicate (23 - (lsdz 10 x.toNat).length) 0xA5#8)
+    (List.replicate (lsdz 10 x.toNat).length 0xA5#8) [0#8] (by omega) (by simp)
+  have e : (List.replicate (23 - (lsdz 10 x.toNat).length) (0xA5#8 : Byte)).length
+      + (List.replicate (lsdz 10 x.toNat).length (0xA5#8 : Byte)).length = 23 := by simp; omega
+  rw [e, ← hsplit] at this
+  rw [this]
+  simp only [Option.bind_some, cstrAt]
+  have hdrop : ∀ (p q : List Byte), (p ++ q).drop p.length = q := by intro p q; simp
+  rw [List.append_assoc, hdrop]
+  have hd10 : ∀ d ∈ lsdz 10 x.toNat, d < 10 := by
+    intro d hd; unfold lsdz at hd; split at hd
+    · simp at hd
+    · exact lsd_lt (by omega) _ d hd
+  rw [takeWhile_nul _ _ (by
+    intro c hc
+    simp only [List.mem_map, List.mem_reverse] at hc
+    obtain ⟨d, hd, rfl⟩ := hc
+    exact (decChar_eq d (hd10 d hd)).2)]
+  by_cases hx : x = 0#64
+  · subst hx; simp [lsdz, canonNat, digits, lsd_small]; decide
+  · have hxn : x.toNat ≠ 0 := fun h => hx (BitVec.eq_of_toNat_eq (by simpa using h))
+    simp only [hx, if_false, List.nil_append, canonNat, digits]
+    have : lsdz 10 x.toNat = lsd 10 x.toNat := by simp [lsdz, hxn]
+    rw [← this]
+    exact congrArg some (List.map_congr_left fun d hd => (decChar_eq d (hd10 d (by simpa using hd))).1)
+
+theorem printdecSLL_spec (x : BitVec 64) : printdecSLL x = some (canonInt false 10 x.toInt) := by
+  unfold printdecSLL
+  by_cases hneg : x.toInt < 0
+  · rw [if_pos ((slt_zero_iff64 x).mpr hneg), printdecU64_spec, neg_mag64 x hneg]
+    simp [canonInt, hneg]
+  · rw [if_neg (fun h => hneg ((slt_zero_iff64 x).mp h)), printdecU64_spec, nonneg_mag64 x hneg]
+    simp [canonInt, hneg]
+
+/-! ### fixed-width hexadecimal / binary printers -/
+
+theorem fixedDigits_length (b : Nat) : ∀ w n, (fixedDigits b w n).length = w := by
+  intro w; induction w with
+  | zero => intro n; rfl
+  | succ w ih => intro n; simp [fixedDigits, ih]
+
+theorem fixedDigits_append (b : Nat) (w1 : Nat) : ∀ (w2 n : Nat),
+    fixedDigits b (w1 + w2) n = fixedDigits b w1 (n / b ^ w2) ++ fixedDigits b w2 (n % b ^ w2) := by
+  intro w2
+  induction w2 with
+  | zero => intro n; simp [fixedDigits]
+  | succ w2 ih =>
+    intro n
+    have e1 : n / b / b ^ w2 = n / b ^ (w2 + 1) := by
+      rw [Nat.div_div_eq_div_mul, Nat.pow_succ, Nat.mul_comm]
+    have e2 : n % b ^ (w2 + 1) / b = n / b % b ^ w2 := by
+      rw [Nat.pow_succ, Nat.mul_comm, Nat.mod_mul_right_div_self]
+    have e3 : n % b ^ (w2 + 1) % b = n % b := by
+      rw [Nat.pow_succ, Nat.mul_comm, Nat.mod_mul_right_mod]
+    show fixedDigits b (w1 + w2 + 1) n = _
+    simp only [fixedDigits]
+    rw [ih (n / b), e1, e2, e3, List.append_assoc]
+
+theorem printhexU8_spec : ∀ b : Byte, printhexU8 b = (fixedDigits 16 2 b.toNat).map (digitChar true) := by decide
+theorem printbinU8_spec : ∀ b : Byte, printbinU8 b = (fixedDigits 2 8 b.toNat).map (digitChar true) := by decide
+theorem printhexU4_spec : ∀ b : Byte, b.toNat < 16 → printhexU4 b = (fixedDigits 16 1 b.toNat).map (digitChar true) := by decide
+theorem printbinU4_spec : ∀ b : Byte, b.toNat < 16 → printbinU4 b = (fixedDigits 2 4 b.toNat).map (digitChar true) := by decide
+
+theorem printhexBytes_cons (x : Byte) (xs : List Byte) : printhexBytes (x :: xs) = printhexBytes xs ++ printhexU8 x := by
+  simp [printhexBytes]
+theorem printbinBytes_cons (x : Byte) (xs : List Byte) : printbinBytes (x :: xs) = printbinBytes xs ++ printbinU8 x := by
+  simp [printbinBytes]
+
+theorem printhexBytes_spec {w : Nat} : ∀ (k : Nat) (a : BitVec w),
+    printhexBytes (bytesLE a k) = (fixedDigits 16 (2 * k) a.toNat).map (digitChar true) := by
+  intro k
+  induction k with
+  | zero => intro a; simp [bytesLE, printhexBytes, fixedDigits]
+  | succ k ih =>
+    intro a
+    have e : 2 * (k + 1) = 2 * k + 2 := by omega
+    rw [bytesLE, printhexBytes_cons, ih, printhexU8_spec, e, fixedDigits_append 16 (2 * k) 2 a.toNat, List.map_append]
+    simp [BitVec.toNat_ushiftRight, Nat.shiftRight_eq_div_pow]
+
+theorem printbinBytes_spec {w : Nat} : ∀ (k : Nat) (a : BitVec w),
+    printbinBytes (bytesLE a k) = (fixedDigits 2 (8 * k) a.toNat).map (digitChar true) := by
+  intro k
+  induction k with
+  | zero => intro a; simp [bytesLE, printbinBytes, fixedDigits]
+  | succ k ih =>
+    intro a
+    have e : 8 * (k + 1) = 8 * k + 8 := by omega
+    rw [bytesLE, printbinBytes_cons, ih, printbinU8_spec, e, fixedDigits_append 2 (8 * k) 8 a.toNat, List.map_append]
+    simp [BitVec.toNat_ushiftRight, Nat.shiftRight_eq_div_pow]
+
+/-- fixed-width digits are the canonical digits, zero-padded on the left -/
+theorem fixedDigits_zero (b : Nat) : ∀ w, fixedDigits b w 0 = List.replicate w 0 := by
+  intro w; induction w with
+  | zero => rfl
+  | succ w ih => simp [fixedDigits, ih, List.replicate_succ']
+
+theorem digits_big {b n : Nat} (hb : 2 ≤ b) (h : b ≤ n) : digits b n = digits b (n / b) ++ [n % b] := by
+  simp [digits, lsd_big hb h]
+
+theorem fixedDigits_eq_pad {b : Nat} (hb : 2 ≤ b) : ∀ (w n : Nat), n < b ^ (w + 1) →
+    fixedDigits b (w + 1) n = List.replicate (w + 1 - (digits b n).length) 0 ++ digits b n := by
+  intro w
+  induction w with
+  | zero =>
+    intro n hn
+    have hn' : n < b := by simpa using hn
+    simp [fixedDigits, digits, lsd_small hn', Nat.mod_eq_of_lt hn']
+  | succ w ih =>
+    intro n hn
+    by_cases h : n < b
+    · simp [fixedDigits, digits, lsd_small h, Nat.mod_eq_of_lt h, Nat.div_eq_of_lt h, fixedDigits_zero,
+        List.replicate_succ']
+    · have hq : n / b < b ^ (w + 1) := by
+        apply Nat.div_lt_of_lt_mul; rw [Nat.pow_succ, Nat.mul_comm] at hn; exact hn
+      have e : fixedDigits b (w + 1 + 1) n = fixedDigits b (w + 1) (n / b) ++ [n % b] := rfl
+      have hbn : b ≤ n := by omega
+      rw [e, ih (n / b) hq, digits_big (n := n) hb hbn]
+      simp only [List.length_append, List.length_cons, List.length_nil, List.append_assoc]
+      congr 2; omega
+
+theorem i32toa_spec (num : BitVec 32) (base : BitVec 8) (hb : 2 ≤ base.toNat) (hb36 : base.toNat ≤ 36)
+    (m : List Byte) (hm : (canonInt false base.toNat num.toInt).length + 1 ≤ m.length) :
+    i32toa num m base
+      = some (canonInt false base.toNat num.toInt ++ 0#8 :: m.drop ((canonInt false base.toNat num.toInt).length + 1),
+              (canonInt false base.toNat num.toInt).length) := by
+  have e : (num.signExtend 64).toInt = num.toInt := BitVec.toInt_signExtend_of_le (by omega)
+  have := i64toa_spec (num.signExtend 64) base hb hb36 m (by rw [e]; exact hm)
+  rw [e] at this; exact this
+
+theorem vt100Left_spec (arg : BitVec 32) (m : List Byte)
+    (hm : (canonInt false 10 arg.toInt).length + 4 ≤ m.length) :
+    vt100Left m arg
+      = some (0x1B#8 :: 0x5B#8 :: canonInt false 10 arg.toInt ++ 0x44#8 :: 0#8
+                :: m.drop ((canonInt false 10 arg.toInt).length + 4),
+              (canonInt false 10 arg.toInt).length + 3) := by
+  match m, hm with
+  | x0 :: x1 :: rest, hm =>
+    have hr : (canonInt false 10 arg.toInt).length + 2 ≤ rest.length := by simp at hm; omega
+    have h10 : (10#8 : BitVec 8).toNat = 10 := rfl
+    have hi := i32toa_spec arg 10#8 (by rw [h10]; omega) (by rw [h10]; omega) rest (by rw [h10]; omega)
+    rw [h10] at hi
+    obtain ⟨seg, y, hsplit, hseg⟩ := split_buf (rest.drop ((canonInt false 10 arg.toInt).length + 1)) 0
+      (by simp; omega)
+    have hseg0 : seg = [] := List.eq_nil_of_length_eq_zero hseg
+    subst hseg0
+    simp only [List.nil_append, List.drop_drop] at hsplit
+    unfold vt100Left
+    simp only [wr, Option.bind_some, Option.map_some, List.drop_succ_cons, List.drop_zero, List.take_succ_cons,
+      List.take_zero]
+    rw [hi]
+    simp only [Option.bind_some]
+    rw [hsplit]
+    have a1 : ∀ (t : List Byte) (r : List Byte) (v : Byte) (z : Byte),
+        wr ([0x1B#8, 0x5B#8] ++ (t ++ z :: r)) (2 + t.length) v = some ([0x1B#8, 0x5B#8] ++ (t ++ v :: r)) := by
+      intro t r v z
+      have := wr_mid ([0x1B#8, 0x5B#8] ++ t) z r (2 + t.length) v (by simp; omega)
+      simpa using this
+    rw [a1]
+    simp only [Option.bind_some]
+    have a2 : ∀ (t : List Byte) (r : List Byte) (v d : Byte) (z : Byte),
+        wr ([0x1B#8, 0x5B#8] ++ (t ++ d :: z :: r)) (2 + t.length + 1) v = some ([0x1B#8, 0x5B#8] ++ (t ++ d :: v :: r)) := by
+      intro t r v d z
+      have := wr_mid ([0x1B#8, 0x5B#8] ++ t ++ [d]) z r (2 + t.length + 1) v (by simp; omega)
+      simpa using this
+    rw [a2]
+    simp only [Option.bind_some, List.cons_append, List.nil_append, Option.some.injEq, Prod.mk.injEq]
+    refine ⟨?_, by omega⟩
+    congr 5
+    simp
+
+/-! ### atol on the decimal text of a long -/
+
+theorem foldl10_ge : ∀ (ds : List Nat) (acc : Nat), acc ≤ ds.foldl (fun a d => a * 10 + d) acc := by
+  intro ds; induction ds with
+  | nil => intro acc; simp
+  | cons d ds ih => intro acc; have := ih (acc * 10 + d); simp only [List.foldl_cons]; omega
+
+theorem dec_char_facts : ∀ d, d < 10 →
+    isdigitC (digitChar false d) = true ∧ ((digitChar false d).toNat : Int) - 48 = d
+    ∧ isspaceC (digitChar false d) = false ∧ (digitChar false d == 0x2D#8) = false
+    ∧ (digitChar false d == 0x2B#8) = false := by decide
+
+theorem inLong_neg (k : Nat) (h : k ≤ 2 ^ 63) : inLong (-(k : Int)) = true := by
+  simp only [inLong, Bool.and_eq_true, decide_eq_true_eq]
+  have : (2 : Int) ^ 63 = ((2 ^ 63 : Nat) : Int) := by norm_cast
+  omega
+
+theorem atolDigits_spec : ∀ (ds : List Nat) (acc : Nat) (t : Byte) (rest : List Byte),
+    (∀ d ∈ ds, d < 10) → isdigitC t = false → ds.foldl (fun a d => a * 10 + d) acc ≤ 2 ^ 63 →
+    atolDigits (ds.map (digitChar false) ++ t :: rest) (-(acc : Int))
+      = some (-((ds.foldl (fun a d => a * 10 + d) acc : Nat) : Int)) := by
+  intro ds
+  induction ds with
+  | nil => intro acc t rest _ ht _; simp [atolDigits, ht]
+  | cons d ds ih =>
+    intro acc t rest hlt ht hbound
+    have hd := dec_char_facts d (hlt d (by simp))
+    have hge := foldl10_ge ds (acc * 10 + d)
+    simp only [List.foldl_cons] at hbound
+    have e : 10 * (-(acc : Int)) - (((digitChar false d).toNat : Int) - 48) = -((acc * 10 + d : Nat) : Int) := by
+      rw [hd.2.1]; push_cast; omega
+    have e0 : 10 * (-(acc : Int)) = -((acc * 10 : Nat) : Int) := by push_cast; omega
+    simp only [List.map_cons, List.cons_append, atolDigits, hd.1, if_true, List.foldl_cons]
+    rw [e, e0, inLong_neg _ (by omega), inLong_neg _ (by omega)]
+    simp only [Bool.and_self, if_true]
+    exact ih (acc * 10 + d) t rest (fun x hx => hlt x (by simp [hx])) ht hbound
+
+theorem isdigitC_nul : isdigitC 0#8 = false := by decide
+
+theorem atol_spec (z : Int) (hlo : -(2 ^ 63) ≤ z) (hhi : z < 2 ^ 63) (tail : List Byte) :
+    atol (canonInt false 10 z ++ 0#8 :: tail) = some (BitVec.ofInt 64 z) := by
+  have hp : (2 : Int) ^ 63 = ((2 ^ 63 : Nat) : Int) := by norm_cast
+  have hd10 : ∀ d ∈ digits 10 z.natAbs, d < 10 := digits_lt (by omega) _
+  have hval : (digits 10 z.natAbs).foldl (fun a d => a * 10 + d) 0 = z.natAbs := ofDigits_digits (by omega) _
+  have hdig := atolDigits_spec (digits 10 z.natAbs) 0 0#8 tail hd10 isdigitC_nul (by rw [hval]; omega)
+  rw [hval] at hdig
+  simp only [Int.natCast_zero, Int.neg_zero] at hdig
+  by_cases hneg : z < 0
+  · have hsp : isspaceC 0x2D#8 = false := by decide
+    have h1 : (0x2D#8 == 0x2D#8) = true := by decide
+    simp only [canonInt, hneg, if_true, List.cons_append, List.nil_append, canonNat, atol, skipSpace, hsp,
+      Bool.false_eq_true, if_false, h1, Bool.true_or]
+    rw [hdig]
+    simp only [Option.bind_some]
+    have : -(z.natAbs : Int) = z := by omega
+    rw [this]
+  · obtain ⟨d, tl, hd, hh⟩ : ∃ d tl, d < 10 ∧ digits 10 z.natAbs = d :: tl := by
+      cases h : digits 10 z.natAbs with
+      | nil => simp [digits] at h; exact absurd h (lsd_ne_nil _ _)
+      | cons d tl => exact ⟨d, tl, hd10 d (by simp [h]), rfl⟩
+    have hf := dec_char_facts d hd
+    rw [hh] at hdig
+    simp only [List.map_cons, List.cons_append] at hdig
+    have htxt : canonInt false 10 z ++ 0#8 :: tail
+        = digitChar false d :: (List.map (digitChar false) tl ++ 0#8 :: tail) := by
+      simp [canonInt, hneg, canonNat, hh]
+    have hss : skipSpace (digitChar false d :: (List.map (digitChar false) tl ++ 0#8 :: tail))
+        = digitChar false d :: (List.map (digitChar false) tl ++ 0#8 :: tail) := by
+      rw [skipSpace, hf.2.2.1]; simp
+    rw [htxt]
+    unfold atol
+    rw [hss]
+    simp only [hf.2.2.2.1, hf.2.2.2.2, Bool.or_self, Bool.false_eq_true, if_false]
+    rw [hdig]
+    simp only [Option.bind_some, Int.neg_neg]
+    have hin : inLong (z.natAbs : Int) = true := by
+      simp only [inLong, Bool.and_eq_true, decide_eq_true_eq]; omega
+    rw [hin]
+    simp only [if_true]
+    have : (z.natAbs : Int) = z := by omega
+    rw [this]
+
+theorem setWidth_ofInt64_32 (z : Int) : (BitVec.ofInt 64 z).setWidth 32 = BitVec.ofInt 32 z := by
+  apply BitVec.eq_of_toNat_eq
+  simp [BitVec.toNat_ofInt]
+  omega
+
+theorem digitChar_dec : ∀ d, d < 10 → digitChar true d = digitChar false d := by decide
+
+/-- in base 10 (no letters) the upper- and lower-case texts coincide -/
+theorem canonNat_dec (n : Nat) : canonNat true 10 n = canonNat false 10 n := by
+  unfold canonNat
+  exact List.map_congr_left fun d hd => digitChar_dec d (digits_lt (b := 10) (by omega) n d hd)
+
 end Igris.C07
